@@ -83,12 +83,16 @@ pub proof fn new_log() -> (tracked r: RunLog) ensures r.started == 0, r.checks.l
 pub enum Kind { Skip, Diag, Cont, Brk, Cmd, If, For, While, Nothing }
 pub open spec fn kw_continue() -> Seq<char> { "continue"@ }
 pub open spec fn kw_break() -> Seq<char> { "break"@ }
+// the line without a comment behind its first word (scripting::without_trailing_comment: byte slicing, outside the verifier; bounded break-continue:followed-by-a-comment)
+pub uninterp spec fn spec_kw(t: Seq<char>) -> Seq<char>;
+#[verifier::external_body]
+pub fn without_trailing_comment(line: &str) -> (r: &str) ensures r@ == spec_kw(line@) { unimplemented!() }
 pub open spec fn kind_of(p: VxPair, in_loop: bool) -> Kind {
     let t = spec_trim(pair_text(p));
     if t.len() == 0 { Kind::Skip }
     else if pair_rule(p) == Rule::CMD {
-        if t == kw_continue() { if in_loop { Kind::Cont } else { Kind::Diag } }
-        else if t == kw_break() { if in_loop { Kind::Brk } else { Kind::Diag } }
+        if spec_kw(t) == kw_continue() { if in_loop { Kind::Cont } else { Kind::Diag } }
+        else if spec_kw(t) == kw_break() { if in_loop { Kind::Brk } else { Kind::Diag } }
         else { Kind::Cmd }
     }
     else if pair_rule(p) == Rule::EXP_IF { Kind::If }
@@ -585,7 +589,7 @@ UNIT = Unit('U-SCRIPT', TEMPLATE, fns=[run_script, stopped_by_error, run_exp_whi
 TRUSTED = common.TRUSTED_STR + [
     'the pest parse tree is opaque: the text, rule and children of a node are uninterpreted (the grammar locust.pest is outside the verifier); '
     'which statements a script text consists of is exercised by the bounded script cases only',
-    'run_command_line, expand_args, get_for_var_name, get_for_result_list are external here (and run_exp_if / run_exp_for / run_exp_test_br at their call sites: callers see no contract of them, they are verified on their own): any results, any effect on the shell '
+    'run_command_line, expand_args, get_for_var_name, get_for_result_list, without_trailing_comment (which text of a line is compared with the keywords break / continue) are external here (and run_exp_if / run_exp_for / run_exp_test_br at their call sites: callers see no contract of them, they are verified on their own): any results, any effect on the shell '
     '(run_command_line / expand_args have their own contracts in U-LIST / U-ARGS)',
     'args[0] is the script or function name (callers: run_script, try_run_func, source): assumed as precondition args.len() >= 1',
     'run_exp_while may run forever (a script loop): termination is not claimed for it',
